@@ -97,6 +97,14 @@ pub fn write_file_short(cfg: &FileCfg, entries: &[Entry]) -> Result<Vec<u8>, Str
     Ok(a)
 }
 
+/// The file as received by each of the two short-writing sinks (for the read-side checks: each is
+/// a file the real writer produced, whether or not the two agree — agreement is C11's business).
+pub fn write_files_short(cfg: &FileCfg, entries: &[Entry]) -> Result<Vec<Vec<u8>>, String> {
+    let a = write_file_policy(cfg, entries, vlib::sio::Policy::InterruptThenOne)?;
+    let b = write_file_policy(cfg, entries, vlib::sio::Policy::Alternate)?;
+    Ok(if a == b { vec![a] } else { vec![a, b] })
+}
+
 fn write_file_policy(cfg: &FileCfg, entries: &[Entry], policy: vlib::sio::Policy) -> Result<Vec<u8>, String> {
     let r = catch_unwind(AssertUnwindSafe(|| -> Result<Vec<u8>, String> {
         let ctl = vlib::sio::Ctl::new(policy);
